@@ -80,7 +80,8 @@ class PlanTracker:
         def kids(n):
             if nodes[n]['kind'] == 'C':
                 c = sub[n]
-                return [nodes[n]['children'][ord(c) - 48]] if c not in '-.' else []
+                i = ord(c) - 48 if c not in '-.' else -1
+                return [nodes[n]['children'][i]] if 0 <= i < len(nodes[n]['children']) else []
             return nodes[n]['children']
         def visit(n, meth, post):
             if nodes[n]['kind'] == 'L': return own(n, meth)
